@@ -11,6 +11,11 @@ int env = 0;
 // harness answers here, and the chunks run sequentially in this thread.
 extern "C" int omp_get_num_procs(void) noexcept { return verif::env == 2 ? verif::chunks + 5 : verif::chunks; }
 extern "C" int omp_get_max_threads(void) noexcept { return verif::env == 1 ? verif::chunks + 3 : verif::chunks; }
+extern "C" int omp_get_thread_num(void) noexcept { return 0; }      // pragmas are ignored in this build: every parallel region runs as a team of one
+extern "C" int omp_get_num_threads(void) noexcept { return 1; }
+extern "C" int omp_in_parallel(void) noexcept { return 0; }
+extern "C" void omp_set_num_threads(int) noexcept {}
+extern "C" int omp_get_thread_limit(void) noexcept { return 1; }
 
 namespace se {
 std::vector<CfgEntry> &registry() { static std::vector<CfgEntry> r; return r; }
